@@ -2,6 +2,7 @@ import Dashu.Proofs.Cross.Dispatch
 import Dashu.Proofs.Cross.Counter
 import Dashu.Proofs.Cross.Spec
 import Dashu.Proofs.Cross.HashProofs
+import Dashu.Proofs.Cross.HashWeak
 /-
   C14 — Cross-type numeric comparison and hashing agree with exact values.
 
@@ -217,6 +218,13 @@ theorem num_hash_value_partial {x y : Num} (hx : x.HashOK) (hy : y.HashOK) {n1 n
     (vx : x.value = .fin n1 d1) (vy : y.value = .fin n2 d2) (h : n1 * d2 = n2 * d1) :
     numHashFeed x = numHashFeed y :=
   numHash_value hx hy vx vy h
+
+/-- the same under the WEAKEST hypothesis: only a rational argument with BOTH stored parts divisible
+    by `M` is excluded (`Num.HashOKWeak`, the predicate of the recorded finding) -/
+theorem num_hash_value_weak_partial {x y : Num} (hx : x.HashOKWeak) (hy : y.HashOKWeak) {n1 n2 : Int}
+    {d1 d2 : Nat} (vx : x.value = .fin n1 d1) (vy : y.value = .fin n2 d2) (h : n1 * d2 = n2 * d1) :
+    numHashFeed x = numHashFeed y :=
+  numHash_value_weak hx hy vx vy h
 
 /-- the `M | den` corner is NOT consistent: the reduced `RBig 1/1` and the non-reduced
     `Relaxed M/M` are equal numbers with different feeds (1 vs the INF constant, 0). -/
